@@ -534,16 +534,21 @@ theorem plain_disassemble (hc : PlainCls c) (hk : PlainCfg c cfg) (K : Nat) (hK 
       = .ok { p with app := (canon c cfg dek).app, reloc := (canon c cfg dek).reloc } := by
   have hA := (plain_app_valid hc hk).1
   have hcl : cleanIvt (plainU c cfg K) = cleanIvt (appData cfg) := cleanIvt_updateIvt c cfg _ _ _ hA
+  have hal : align4 (cleanIvt (appData cfg)) = cleanIvt (appData cfg) := by
+    apply align4_of_aligned
+    rw [cleanIvt_length _ hA]
+    exact align4_length_mod _
   unfold disassemble
   rw [hc.hdisasm]
   rcases hc.hcoll with ⟨h1, h2⟩ | ⟨h1, h2⟩
   · rw [h1]
     have himg : plainImg c cfg K = plainU c cfg K ++ plainR cfg := by
       unfold plainImg; rw [plain_tz_nil hk h2, List.append_nil]
-    simp only [himg, plain_disApp hc hk K hK p hr, bind, Except.bind, pure, Except.pure, hc.hclean, if_true, hcl, canon]
+    simp only [himg, plain_disApp hc hk K hK p hr, bind, Except.bind, pure, Except.pure, hc.hclean, if_true, hcl, hal,
+      canon]
   · rw [h1]
     simp only [plain_dropTz c cfg K p hp, plain_disApp hc hk K hK p hr, bind, Except.bind, pure, Except.pure, hc.hclean,
-      if_true, hcl, canon]
+      if_true, hcl, hal, canon]
 
 
 /-! ### the parse order of a class without certificate block is the class order -/
@@ -619,11 +624,13 @@ theorem plain_parseTz (hc : PlainCls c) (hk : PlainCfg c cfg) (K : Nat) (p : Par
   | disabled => simp [TzCfg.tag, tzEnabled, tzCustom, tzDisabled]
   | enabled => simp [TzCfg.tag, tzEnabled, tzCustom, tzDisabled]
   | custom d =>
-    obtain ⟨hd, _⟩ := hk.htz d htzc
+    obtain ⟨hd, hpos⟩ := hk.htz d htzc
     have hl : lastN (plainImg c cfg K) c.tzSize = d := by
       unfold plainImg; rw [htzc, ← hd]; exact plain_lastN _ _
+    have hdne : d ≠ [] := by
+      intro h0; rw [h0] at hd; simp only [List.length_nil] at hd; omega
     simp only [TzCfg.tag, tzEnabled, tzCustom, tzDisabled, hl, tzFromBinary, hd]
-    simp [bind, Except.bind, pure, Except.pure, ← hd]
+    simp [bind, Except.bind, pure, Except.pure, ← hd, hdne]
 
 
 theorem plain_mixParse (hc : PlainCls c) (hk : PlainCfg c cfg) (K : Nat) (hK : K < 2 ^ 32) (dek : Option Bytes)
